@@ -24,6 +24,7 @@ import (
 	"strings"
 	"sync"
 	"testing"
+	"time"
 
 	"github.com/gotid/god/lib/logx"
 	"pgregory.net/rapid"
@@ -233,12 +234,13 @@ func (r *c11Rows) Next(dest []driver.Value) error {
 type C11Stmt struct {
 	K string `json:"k"`           // exec | query | prep (prepare + exec on the prepared statement)
 	F bool   `json:"f,omitempty"` // the driver fails this statement
-	R string `json:"r,omitempty"` // body's reaction to a failed statement: ret | ign | panic
+	R string `json:"r,omitempty"` // body's reaction when this statement returns an error (driver fault or done context): ret | ign ("" = ign) | panic
 }
 
-// C11TxCase is one transaction: entry point, body, driver fault script.
+// C11TxCase is one transaction: entry point, context, body, driver fault script.
 type C11TxCase struct {
 	Entry     string    `json:"e"`            // transact | transactctx | onconn | newconn (ext: cached | cachedctx)
+	Cx        string    `json:"cx,omitempty"` // context given to a ...Ctx entry point: "" live | pre (cancelled before the call) | dead (deadline already expired) | b<j> (cancelled by the body right before statement j; j = len(s): after the last one)
 	Stmts     []C11Stmt `json:"s,omitempty"`  // statements run by the body, in order
 	Out       string    `json:"o"`            // outcome of the body after its statements: nil | err | panic
 	PanicV    string    `json:"pv,omitempty"` // err | str | rt (runtime error)
@@ -248,17 +250,34 @@ type C11TxCase struct {
 }
 
 // C11TxEntries are the entry points of the in-package unit.
-var C11TxEntries = []string{"transact", "transact", "transactctx", "transactctx", "onconn", "newconn"}
+var C11TxEntries = []string{"transact", "transactctx", "transactctx", "transactctx", "onconn", "newconn"}
+
+// c11CtxEntry: the entry point takes the caller's context.
+func c11CtxEntry(e string) bool {
+	return e == "transactctx" || e == "onconn" || e == "newconn" || e == "cachedctx"
+}
 
 // VerifC11GenTx draws a transaction case for one of the given entry points.
 func VerifC11GenTx(entries []string) func(rt *rapid.T) C11TxCase {
 	return func(rt *rapid.T) C11TxCase {
 		c := C11TxCase{Entry: rapid.SampledFrom(entries).Draw(rt, "entry")}
 		n := rapid.IntRange(0, 4).Draw(rt, "nstmts")
+		if c11CtxEntry(c.Entry) {
+			switch rapid.IntRange(0, 9).Draw(rt, "ctx") {
+			case 1:
+				c.Cx = "pre"
+			case 2:
+				c.Cx = "dead"
+			case 3, 4:
+				c.Cx = fmt.Sprintf("b%d", rapid.IntRange(0, n).Draw(rt, "cancelat"))
+			}
+		}
 		for i := 0; i < n; i++ {
 			s := C11Stmt{K: rapid.SampledFrom([]string{"exec", "exec", "query", "prep"}).Draw(rt, "kind")}
 			if rapid.IntRange(0, 3).Draw(rt, "stmtfault") == 0 {
 				s.F = true
+			}
+			if s.F || c.Cx != "" {
 				s.R = rapid.SampledFrom([]string{"ret", "ret", "ign", "panic"}).Draw(rt, "reaction")
 			}
 			c.Stmts = append(c.Stmts, s)
@@ -283,13 +302,13 @@ func VerifC11GenTx(entries []string) func(rt *rapid.T) C11TxCase {
 }
 
 // C11Runner runs fn in a transaction on db through one entry point of the code
-// under test and returns what the caller of that entry point gets.
-type C11Runner func(entry string, db *sql.DB, fn func(context.Context, Session) error) error
+// under test, handing ctx to the ...Ctx entry points, and returns what the
+// caller of that entry point gets.
+type C11Runner func(entry string, ctx context.Context, db *sql.DB, fn func(context.Context, Session) error) error
 
 type c11CtxKey struct{}
 
-func c11RunTx(entry string, db *sql.DB, fn func(context.Context, Session) error) error {
-	ctx := context.WithValue(context.Background(), c11CtxKey{}, 1)
+func c11RunTx(entry string, ctx context.Context, db *sql.DB, fn func(context.Context, Session) error) error {
 	switch entry {
 	case "transact":
 		return NewConnFromDB(db).Transact(func(s Session) error { return fn(context.Background(), s) })
@@ -315,7 +334,10 @@ const c11KnownPanicSwallowed = "panic-swallowed-no-rollback"
 
 // VerifC11InterpTx runs one transaction case and judges it.
 //
-// Oracle (from the statement):
+// The body is harness code, so its outcome (returned nil / returned e /
+// panicked) is observed, not predicted; with a live context it must also equal
+// the outcome the case prescribes. Oracle (from the statement), whatever the
+// state of the caller's context:
 //   - Begin failed: no transaction exists; the result is not nil (nil would
 //     claim a Commit), the body is not run, nothing is committed or rolled back.
 //   - body returned nil: the driver sees exactly one Commit and no Rollback,
@@ -324,7 +346,15 @@ const c11KnownPanicSwallowed = "panic-swallowed-no-rollback"
 //     "not nil" is required when the Rollback failed too).
 //   - body panicked: no Commit, exactly one Rollback, and the caller gets a
 //     non-nil error or the panic.
-//   - the driver history is exactly begin, the body's statements, the terminal.
+//   - a nil result always comes with exactly one successful Commit and no Rollback.
+//   - the driver history is begin, statements of the body, the terminal
+//     (exactly the prescribed statements when the context is live).
+//
+// Left open because the statement does not fix it (only with a context that is
+// done): an implementation may refuse to begin under a context that is already
+// done (body not run, non-nil result, no Commit, a begun transaction rolled
+// back), and may roll back instead of committing when the body returned nil
+// (non-nil result, no Commit, one Rollback).
 func VerifC11InterpTx(c C11TxCase, run C11Runner) (v kit.Verdict) {
 	f := newC11Fake()
 	f.failBegin = c.FBegin == "begin"
@@ -343,37 +373,47 @@ func VerifC11InterpTx(c C11TxCase, run C11Runner) (v kit.Verdict) {
 		defer db.Close()
 	}
 
-	// ---- model, written from the statement
-	outcome := c.Out
-	expEvents := []string{"begin"}
+	// ---- the caller's context
+	cx := c.Cx
+	if !c11CtxEntry(c.Entry) {
+		cx = ""
+	}
+	userCtx := context.WithValue(context.Background(), c11CtxKey{}, 1)
+	cancelAt := -1
+	var cancel context.CancelFunc = func() {}
+	switch {
+	case cx == "pre":
+		userCtx, cancel = context.WithCancel(userCtx)
+		cancel()
+	case cx == "dead":
+		userCtx, cancel = context.WithDeadline(userCtx, time.Unix(1, 0))
+	case strings.HasPrefix(cx, "b"):
+		userCtx, cancel = context.WithCancel(userCtx)
+		fmt.Sscanf(cx[1:], "%d", &cancelAt)
+		if cancelAt > len(c.Stmts) {
+			cancelAt = len(c.Stmts)
+		}
+	}
+	defer cancel()
+	live := cx == ""
+
+	// ---- outcome prescribed by the case when every statement behaves as scripted (live context)
+	prescribed := c.Out
 	var stmtErrs []*c11Fault
-	retIdx := -1
-	effectiveStmtFault := false
-	for i, s := range c.Stmts {
+	for i := range c.Stmts {
 		stmtErrs = append(stmtErrs, &c11Fault{fmt.Sprintf("stmt %d", i)})
-		if outcome != c.Out || retIdx >= 0 {
-			continue
-		}
-		if s.K == "query" {
-			expEvents = append(expEvents, "query")
-		} else {
-			expEvents = append(expEvents, "exec")
-		}
-		if s.F {
-			effectiveStmtFault = true
-			switch s.R {
-			case "ret":
-				retIdx = i
-			case "panic":
-				outcome = "panic!"
-			}
-		}
 	}
-	if retIdx >= 0 {
-		outcome = "err"
-	}
-	if outcome == "panic!" {
-		outcome = "panic"
+	retIdx := -1
+	for i, s := range c.Stmts {
+		if s.F && s.R == "ret" {
+			retIdx = i
+			prescribed = "err"
+			break
+		}
+		if s.F && s.R == "panic" {
+			prescribed = "panic"
+			break
+		}
 	}
 
 	// ---- the body
@@ -381,22 +421,31 @@ func VerifC11InterpTx(c C11TxCase, run C11Runner) (v kit.Verdict) {
 	runs := 0
 	var captured Session
 	queryWrong := ""
+	outcome := ""        // observed: nil | err | panic
+	var returned error   // the error the body returned
+	var executed []string // driver-level kind of every statement the body started
+	sawStmtFault, panicAtStmt, ctxFailedStmt := false, false, false
 	fn := func(ctx context.Context, s Session) error {
 		runs++
 		captured = s
 		for i, st := range c.Stmts {
+			if i == cancelAt {
+				cancel()
+			}
 			var err error
 			if st.F {
 				f.arm(stmtErrs[i])
 			}
 			switch st.K {
 			case "exec":
+				executed = append(executed, "exec")
 				if i%2 == 0 {
 					_, err = s.ExecCtx(ctx, "update t set a = ? where id = ?", i, 7)
 				} else {
 					_, err = s.Exec("update t set a = a + 1")
 				}
 			case "query":
+				executed = append(executed, "query")
 				var dst struct {
 					A int64 `db:"a"`
 				}
@@ -409,6 +458,7 @@ func VerifC11InterpTx(c C11TxCase, run C11Runner) (v kit.Verdict) {
 					queryWrong = fmt.Sprintf("statement %d: QueryRow inside the transaction read %d, the driver served 41", i, dst.A)
 				}
 			case "prep":
+				executed = append(executed, "exec")
 				var ps StmtSession
 				ps, err = s.PrepareCtx(ctx, "update t set a = ? where id = 1")
 				if err == nil {
@@ -416,19 +466,33 @@ func VerifC11InterpTx(c C11TxCase, run C11Runner) (v kit.Verdict) {
 					_ = ps.Close()
 				}
 			}
+			f.arm(nil) // a statement that never reached the driver must not leave its fault behind
 			if err != nil {
+				var inj *c11Fault
+				if errors.As(err, &inj) {
+					sawStmtFault = true
+				} else {
+					ctxFailedStmt = true
+				}
 				switch st.R {
 				case "ret":
+					outcome, returned = "err", err
 					return err
 				case "panic":
+					outcome, panicAtStmt = "panic", true
 					panic(err)
 				}
 			}
 		}
+		if cancelAt == len(c.Stmts) {
+			cancel()
+		}
 		switch c.Out {
 		case "err":
+			outcome, returned = "err", bodyErr
 			return bodyErr
 		case "panic":
+			outcome = "panic"
 			switch c.PanicV {
 			case "str":
 				panic("c11 body panic")
@@ -439,6 +503,7 @@ func VerifC11InterpTx(c C11TxCase, run C11Runner) (v kit.Verdict) {
 				panic(bodyErr)
 			}
 		}
+		outcome = "nil"
 		return nil
 	}
 
@@ -452,48 +517,66 @@ func VerifC11InterpTx(c C11TxCase, run C11Runner) (v kit.Verdict) {
 				panicked, panicVal = true, p
 			}
 		}()
-		res = run(c.Entry, db, fn)
+		res = run(c.Entry, userCtx, db, fn)
 	}()
 	events := f.snapshot()
 
 	// ---- classes / non-trivial rule
 	classes := []string{"entry:" + c.Entry}
-	commits, rollbacks := 0, 0
+	ctxClass := "ctx:live"
+	switch {
+	case cx == "pre", cx == "dead":
+		ctxClass = "ctx:" + cx
+	case cx != "":
+		ctxClass = "ctx:cancelled-by-body"
+	}
+	classes = append(classes, ctxClass)
+	commits, rollbacks, begins := 0, 0, 0
 	for _, e := range events {
 		switch e {
 		case "commit":
 			commits++
 		case "rollback":
 			rollbacks++
+		case "begin":
+			begins++
 		}
 	}
-	effCommitFault, effRollbackFault := false, false
 	if c.FBegin != "" {
 		classes = append(classes, "begin-fault:"+c.FBegin)
 		v.NonTrivial = true
-	} else {
+	} else if runs > 0 {
 		classes = append(classes, "outcome:"+outcome)
-		if outcome == "nil" && c.FCommit {
-			effCommitFault = true
+		if !live {
+			classes = append(classes, ctxClass+"/outcome:"+outcome)
+			if ctxFailedStmt {
+				classes = append(classes, "stmt-failed-on-done-ctx")
+			}
+		}
+		if commits > 0 && c.FCommit {
 			classes = append(classes, "commit-fault")
+			v.NonTrivial = true
 		}
-		if outcome != "nil" && c.FRollback {
-			effRollbackFault = true
+		if rollbacks > 0 && c.FRollback {
 			classes = append(classes, "rollback-fault:"+outcome)
+			v.NonTrivial = true
 		}
-		if effectiveStmtFault {
+		if sawStmtFault {
 			classes = append(classes, "stmt-fault")
+			v.NonTrivial = true
 		}
-		if retIdx >= 0 {
-			classes = append(classes, "stmt-fault-returned")
+		if outcome == "err" && returned != bodyErr {
+			classes = append(classes, "stmt-error-returned")
 		}
-		if outcome == "panic" && c.Out != "panic" {
+		if panicAtStmt {
 			classes = append(classes, "panic-at-statement")
 		}
-		if outcome == "panic" && len(expEvents) > 1 {
+		if outcome == "panic" && len(executed) > 0 {
 			classes = append(classes, "panic-after-statements")
 		}
-		v.NonTrivial = outcome == "panic" || effCommitFault || effRollbackFault || effectiveStmtFault
+		if outcome == "panic" || !live {
+			v.NonTrivial = true
+		}
 	}
 	sort.Strings(classes)
 	v.Classes = classes
@@ -510,7 +593,11 @@ func VerifC11InterpTx(c C11TxCase, run C11Runner) (v kit.Verdict) {
 		if panicked {
 			p = fmt.Sprintf("panic(%v)", panicVal)
 		}
-		return fmt.Sprintf("result=%v, %s, driver history=%v", res, p, events)
+		cs := "live context"
+		if !live {
+			cs = fmt.Sprintf("context %s (ctx.Err()=%v at return)", cx, userCtx.Err())
+		}
+		return fmt.Sprintf("result=%v, %s, driver history=%v, %s", res, p, events, cs)
 	}
 
 	// ---- oracle
@@ -532,15 +619,72 @@ func VerifC11InterpTx(c C11TxCase, run C11Runner) (v kit.Verdict) {
 		}
 		return v
 	}
+	if runs == 0 && (cx == "pre" || cx == "dead") {
+		// refused under a context that was done before the call (statement silent)
+		v.Classes = append(v.Classes, "ctx-done:body-not-run")
+		switch {
+		case panicked:
+			return v.Failf("context done before the call: the caller got a panic (%s)", describe())
+		case res == nil:
+			return v.Failf("context done before the call, body not run, but Transact returned nil (%s)", describe())
+		case commits != 0:
+			return v.Failf("context done before the call, body not run, but the driver saw a Commit (%s)", describe())
+		case begins > 0 && rollbacks != 1:
+			return v.Failf("context done before the call: a transaction was begun, the body not run, and the driver saw %d Rollback(s), want 1 (%s)", rollbacks, describe())
+		}
+		return v
+	}
 	if runs != 1 {
 		return v.Failf("the body was run %d times, want exactly once (%s)", runs, describe())
 	}
 	if queryWrong != "" {
 		return v.Failf("%s", queryWrong)
 	}
+	if live {
+		if outcome != prescribed {
+			return v.Failf("live context: the body ended with outcome %q, the case prescribes %q: a statement did not behave as the driver script says (%s)", outcome, prescribed, describe())
+		}
+		if outcome == "err" && retIdx >= 0 && returned != error(stmtErrs[retIdx]) {
+			return v.Failf("live context: statement %d returned %v to the body, the driver failed it with %v (%s)", retIdx, returned, stmtErrs[retIdx], describe())
+		}
+	}
+	// historyOK: the driver history is begin, statements the body started (all of
+	// them, in order, under a live context; a subsequence under a done context,
+	// where a statement may fail before it reaches the driver), then the
+	// terminal ("" = none).
+	historyOK := func(terminal string) bool {
+		want := append([]string{"begin"}, executed...)
+		ev := events
+		if terminal != "" {
+			if len(ev) == 0 || ev[len(ev)-1] != terminal {
+				return false
+			}
+			ev = ev[:len(ev)-1]
+		}
+		if live {
+			return c11SameEvents(ev, want)
+		}
+		if len(ev) == 0 || ev[0] != "begin" {
+			return false
+		}
+		j := 1
+		for _, e := range ev[1:] {
+			for j < len(want) && want[j] != e {
+				j++
+			}
+			if j == len(want) {
+				return false
+			}
+			j++
+		}
+		return true
+	}
 	switch outcome {
 	case "nil":
-		want := append(append([]string(nil), expEvents...), "commit")
+		if !live && res != nil && !panicked && commits == 0 && rollbacks == 1 && historyOK("rollback") {
+			v.Classes = append(v.Classes, "ctx-done:nil-body-rolled-back")
+			return v
+		}
 		switch {
 		case panicked:
 			return v.Failf("body returned nil: caller got a panic (%s)", describe())
@@ -552,32 +696,26 @@ func VerifC11InterpTx(c C11TxCase, run C11Runner) (v kit.Verdict) {
 			return v.Failf("body returned nil and Commit failed, but Transact returned nil: the commit's own error is lost (%s)", describe())
 		case c.FCommit && !errors.Is(res, f.commitErr):
 			return v.Failf("body returned nil and Commit failed with %q, but Transact returned another error (%s)", f.commitErr, describe())
-		case !c11SameEvents(events, want):
-			return v.Failf("body returned nil: driver history differs from begin, statements, commit = %v (%s)", want, describe())
+		case !historyOK("commit"):
+			return v.Failf("body returned nil: driver history differs from begin, statements %v, commit (%s)", executed, describe())
 		}
 	case "err":
-		want := append(append([]string(nil), expEvents...), "rollback")
-		wantErr := error(bodyErr)
-		if retIdx >= 0 {
-			wantErr = stmtErrs[retIdx]
-		}
 		switch {
 		case panicked:
 			return v.Failf("body returned an error: caller got a panic (%s)", describe())
 		case commits != 0:
 			return v.Failf("body returned an error but the driver saw %d Commit(s) (%s)", commits, describe())
 		case rollbacks != 1:
-			return v.Failf("body returned an error: want exactly one Rollback, driver saw %d (%s)", rollbacks, describe())
+			return v.Failf("body returned the error %q: want exactly one Rollback, driver saw %d (%s)", returned, rollbacks, describe())
 		case res == nil:
-			return v.Failf("body returned %q but Transact returned nil (%s)", wantErr, describe())
-		case !c.FRollback && !errors.Is(res, wantErr):
-			return v.Failf("body returned %q and Rollback succeeded, but Transact returned a different error (%s)", wantErr, describe())
-		case !c11SameEvents(events, want):
-			return v.Failf("body returned an error: driver history differs from begin, statements, rollback = %v (%s)", want, describe())
+			return v.Failf("body returned %q but Transact returned nil (%s)", returned, describe())
+		case !c.FRollback && !errors.Is(res, returned):
+			return v.Failf("body returned %q and Rollback succeeded, but Transact returned a different error (%s)", returned, describe())
+		case !historyOK("rollback"):
+			return v.Failf("body returned an error: driver history differs from begin, statements %v, rollback (%s)", executed, describe())
 		}
 	case "panic":
-		want := append(append([]string(nil), expEvents...), "rollback")
-		if !panicked && res == nil && commits == 0 && rollbacks == 0 && c11SameEvents(events, expEvents) {
+		if !panicked && res == nil && commits == 0 && rollbacks == 0 && historyOK("") {
 			v.Known = c11KnownPanicSwallowed
 			return v.Failf("body panicked: Transact returned nil, the transaction was neither rolled back nor committed and the caller learnt nothing (%s)", describe())
 		}
@@ -588,9 +726,14 @@ func VerifC11InterpTx(c C11TxCase, run C11Runner) (v kit.Verdict) {
 			return v.Failf("body panicked: want exactly one Rollback, driver saw %d (%s)", rollbacks, describe())
 		case !panicked && res == nil:
 			return v.Failf("body panicked but the caller learnt nothing: Transact returned nil and did not panic (%s)", describe())
-		case !c11SameEvents(events, want):
-			return v.Failf("body panicked: driver history differs from begin, statements, rollback = %v (%s)", want, describe())
+		case !historyOK("rollback"):
+			return v.Failf("body panicked: driver history differs from begin, statements %v, rollback (%s)", executed, describe())
 		}
+	default:
+		return v.Failf("c11 harness: body outcome not recorded (%s)", describe())
+	}
+	if res == nil && !panicked && !(commits == 1 && rollbacks == 0 && !c.FCommit) {
+		return v.Failf("Transact returned nil but the driver saw %d Commit(s) (commit fault scripted: %v) and %d Rollback(s); nil must mean exactly one successful Commit and no Rollback (%s)", commits, c.FCommit, rollbacks, describe())
 	}
 	return v
 }
@@ -613,23 +756,33 @@ func TestVerif_C11_tx(t *testing.T) {
 }
 
 // c11EnumerateTx yields every transaction case with at most maxStmts
-// statements: every entry point x every statement list (kind x {ok, fault
-// returned, fault ignored, fault turned into a panic}) x every final outcome
-// (nil, error, three panic values) x every Begin fault x Commit fault x Rollback fault.
-func c11EnumerateTx(maxStmts int) func(yield func(C11TxCase) bool) {
-	var stmtOpts []C11Stmt
+// statements under a live context: every entry point x every statement list
+// (kind x {ok, fault returned, fault ignored, fault turned into a panic}) x
+// every final outcome (nil, error, three panic values) x every Begin fault x
+// Commit fault x Rollback fault; and, for the entry points that take a context
+// and at most maxCtxStmts statements, the same with every non-live context
+// state (cancelled before the call, deadline expired, cancelled by the body
+// before statement 0..n or after the last one), where a statement without a
+// driver fault also carries a reaction (it may fail on the done context).
+func c11EnumerateTx(maxStmts, maxCtxStmts int) func(yield func(C11TxCase) bool) {
+	var stmtOpts, stmtOptsCtx []C11Stmt
 	for _, k := range []string{"exec", "query", "prep"} {
 		stmtOpts = append(stmtOpts, C11Stmt{K: k})
 		for _, r := range []string{"ret", "ign", "panic"} {
 			stmtOpts = append(stmtOpts, C11Stmt{K: k, F: true, R: r})
 		}
 	}
+	stmtOptsCtx = append(stmtOptsCtx, stmtOpts...)
+	for _, k := range []string{"exec", "query", "prep"} {
+		for _, r := range []string{"ret", "panic"} {
+			stmtOptsCtx = append(stmtOptsCtx, C11Stmt{K: k, R: r})
+		}
+	}
 	type out struct{ o, pv string }
 	outs := []out{{"nil", ""}, {"err", ""}, {"panic", "err"}, {"panic", "str"}, {"panic", "rt"}}
 	return func(yield func(C11TxCase) bool) {
-		var rec func(prefix []C11Stmt, left int) bool
-		emit := func(stmts []C11Stmt) bool {
-			for _, e := range []string{"transact", "transactctx", "onconn", "newconn"} {
+		emit := func(stmts []C11Stmt, entries []string, cx string) bool {
+			for _, e := range entries {
 				for _, o := range outs {
 					for _, fb := range []string{"", "begin", "connect"} {
 						if fb == "connect" && e == "newconn" {
@@ -637,7 +790,7 @@ func c11EnumerateTx(maxStmts int) func(yield func(C11TxCase) bool) {
 						}
 						for _, fc := range []bool{false, true} {
 							for _, fr := range []bool{false, true} {
-								c := C11TxCase{Entry: e, Stmts: append([]C11Stmt(nil), stmts...), Out: o.o, PanicV: o.pv,
+								c := C11TxCase{Entry: e, Cx: cx, Stmts: append([]C11Stmt(nil), stmts...), Out: o.o, PanicV: o.pv,
 									FBegin: fb, FCommit: fc, FRollback: fr}
 								if !yield(c) {
 									return false
@@ -649,30 +802,47 @@ func c11EnumerateTx(maxStmts int) func(yield func(C11TxCase) bool) {
 			}
 			return true
 		}
-		rec = func(prefix []C11Stmt, left int) bool {
-			if !emit(prefix) {
+		var rec func(prefix []C11Stmt, left int, opts []C11Stmt, visit func([]C11Stmt) bool) bool
+		rec = func(prefix []C11Stmt, left int, opts []C11Stmt, visit func([]C11Stmt) bool) bool {
+			if !visit(prefix) {
 				return false
 			}
 			if left == 0 {
 				return true
 			}
-			for _, so := range stmtOpts {
-				if !rec(append(append([]C11Stmt(nil), prefix...), so), left-1) {
+			for _, so := range opts {
+				if !rec(append(append([]C11Stmt(nil), prefix...), so), left-1, opts, visit) {
 					return false
 				}
 			}
 			return true
 		}
-		rec(nil, maxStmts)
+		if !rec(nil, maxStmts, stmtOpts, func(stmts []C11Stmt) bool {
+			return emit(stmts, []string{"transact", "transactctx", "onconn", "newconn"}, "")
+		}) {
+			return
+		}
+		rec(nil, maxCtxStmts, stmtOptsCtx, func(stmts []C11Stmt) bool {
+			states := []string{"pre", "dead"}
+			for j := 0; j <= len(stmts); j++ {
+				states = append(states, fmt.Sprintf("b%d", j))
+			}
+			for _, cx := range states {
+				if !emit(stmts, []string{"transactctx", "onconn", "newconn"}, cx) {
+					return false
+				}
+			}
+			return true
+		})
 	}
 }
 
 func TestVerif_C11_txexhaustive(t *testing.T) {
-	max := 2
+	max, maxCtx := 2, 1
 	if kit.Thorough() {
-		max = 3
+		max, maxCtx = 3, 2
 	}
-	kit.Enumerate(t, "C11", "tx-exhaustive", c11EnumerateTx(max),
+	kit.Enumerate(t, "C11", "tx-exhaustive", c11EnumerateTx(max, maxCtx),
 		func(c C11TxCase) kit.Verdict { return VerifC11InterpTx(c, c11RunTx) })
 }
 
@@ -702,6 +872,7 @@ type C11Col struct {
 type C11RowsCase struct {
 	Sess    string     `json:"s"`              // conn | tx | stmt | txstmt | rawtx (ext: cached)
 	Ctx     bool       `json:"x,omitempty"`    // ...Ctx form
+	Cd      bool       `json:"cd,omitempty"`   // the context handed to the ...Ctx form is already cancelled
 	Single  bool       `json:"one,omitempty"`  // QueryRow* (else QueryRows*)
 	Partial bool       `json:"part,omitempty"` // *Partial form (non-strict)
 	Prim    string     `json:"prim,omitempty"` // primitive destination (i64 str f64 bool); Fields unused
@@ -941,6 +1112,7 @@ func VerifC11GenRows(sessions []string) func(rt *rapid.T) C11RowsCase {
 			NRows:   rapid.SampledFrom([]int{0, 1, 1, 1, 1, 2, 2, 3}).Draw(rt, "nrows"),
 		}
 		c.ElemPtr = !c.Single && rapid.Bool().Draw(rt, "elemptr")
+		c.Cd = rapid.IntRange(0, 19).Draw(rt, "ctxdone") == 11 && c.Ctx
 		c.Shape = rapid.SampledFrom([]string{"tagged", "tagged", "tagged", "tagged", "tagged", "tagged",
 			"untagged", "untagged", "emb-untagged", "emb-tagged", "mixed", "prim"}).Draw(rt, "shape")
 
@@ -1078,8 +1250,18 @@ type C11Querier func(c C11RowsCase, db *sql.DB, v any) error
 
 const c11Query = "select a, b, c from t where id = ?"
 
+// VerifC11RowsCtx is the context a rows case hands to the ...Ctx forms.
+func VerifC11RowsCtx(c C11RowsCase) context.Context {
+	if !c.Cd {
+		return context.Background()
+	}
+	ctx, cancel := context.WithCancel(context.Background())
+	cancel()
+	return ctx
+}
+
 func c11CallSession(c C11RowsCase, s Session, v any) error {
-	ctx := context.Background()
+	ctx := VerifC11RowsCtx(c)
 	switch {
 	case c.Single && !c.Partial && c.Ctx:
 		return s.QueryRowCtx(ctx, v, c11Query, 1)
@@ -1101,7 +1283,7 @@ func c11CallSession(c C11RowsCase, s Session, v any) error {
 }
 
 func c11CallStmt(c C11RowsCase, s StmtSession, v any) error {
-	ctx := context.Background()
+	ctx := VerifC11RowsCtx(c)
 	switch {
 	case c.Single && !c.Partial && c.Ctx:
 		return s.QueryRowCtx(ctx, v, 1)
@@ -1240,6 +1422,13 @@ func VerifC11InterpRows(c C11RowsCase, q C11Querier) (v kit.Verdict) {
 		err, pv := call(dst.Interface())
 		if pv != nil {
 			return v.Failf("primitive destination: panic %v", pv)
+		}
+		if c.Cd && c.Ctx && err != nil {
+			// the statement says nothing about contexts: an error under a cancelled
+			// context is not judged (no panic is); a nil error is judged as usual.
+			classes["ctx-cancelled=>error"] = true
+			v.Excluded = true
+			return v
 		}
 		if c.Single {
 			if c.NRows == 0 {
@@ -1404,6 +1593,11 @@ func VerifC11InterpRows(c C11RowsCase, q C11Querier) (v kit.Verdict) {
 	}
 	if pv != nil {
 		return v.Failf("panic %v (columns %v)", pv, f.cols)
+	}
+	if c.Cd && c.Ctx && err != nil {
+		classes["ctx-cancelled=>error"] = true
+		v.Excluded = true
+		return v
 	}
 
 	elems := func() ([][]any, string) {
